@@ -231,6 +231,52 @@ func runConfig(c graphCase) (string, string) {
 	return assess(c, g, err)
 }
 
+// runYaml2: the case's pipeline p next to a second, LARGE acyclic pipeline (a 2500-stage chain declared from
+// the last stage to the first) in one YAML file, loaded through the configuration loader: what is decided for
+// one pipeline must not depend on what else the file contains or on how long that takes to build.
+func runYaml2(c graphCase, dir string) (string, string) {
+	var b strings.Builder
+	b.WriteString("tasks:\n  t:\n    command: \"true\"\npipelines:\n  p:\n")
+	for _, i := range c.Order {
+		fmt.Fprintf(&b, "    - name: %s\n      task: t\n", names[i])
+		if ds := c.deps(i); len(ds) > 0 {
+			var s []string
+			for _, d := range ds {
+				s = append(s, names[d])
+			}
+			fmt.Fprintf(&b, "      depends_on: [%s]\n", strings.Join(s, ", "))
+		}
+	}
+	b.WriteString("  zbig:\n")
+	const k = 2500
+	for i := k - 1; i >= 0; i-- {
+		fmt.Fprintf(&b, "    - name: z%04d\n      task: t\n", i)
+		if i > 0 {
+			fmt.Fprintf(&b, "      depends_on: [z%04d]\n", i-1)
+		}
+	}
+	sub, err := os.MkdirTemp(dir, "y2")
+	if err != nil {
+		return "infra", err.Error()
+	}
+	defer os.RemoveAll(sub)
+	file := filepath.Join(sub, "two.yaml")
+	os.WriteFile(file, []byte(b.String()), 0o644)
+	os.Setenv("HOME", sub)
+	cl := config.NewConfigLoader(config.NewConfig())
+	cfg, err := cl.Load(file)
+	cyc := c.cyclic()
+	switch {
+	case cyc && err == nil:
+		return "missed-cycle", "a file with the cyclic pipeline p and a large acyclic pipeline was accepted"
+	case !cyc && err != nil:
+		return "other-error", "a file with an acyclic pipeline p and a large acyclic pipeline was rejected: " + err.Error()
+	case !cyc && (cfg.Pipelines["p"] == nil || len(cfg.Pipelines["zbig"].Nodes()) != k):
+		return "wrong-edges", "pipelines missing or incomplete after loading"
+	}
+	return "", ""
+}
+
 var edgeRe = regexp.MustCompile(`n(\d+)->n(\d+)`)
 var nodeRe = regexp.MustCompile(`n(\d+)\[label="([^"]+)"\]`)
 
@@ -311,6 +357,8 @@ func main() {
 			return runDirect(c)
 		case "config":
 			return runConfig(c)
+		case "yaml2":
+			return runYaml2(c, dir)
 		}
 		return runBinary(c, dir)
 	}
@@ -394,6 +442,12 @@ func main() {
 		}
 	case "large": // sizes beyond the exhaustive ones, around powers of two: sparse shapes whose verdict is known
 		bigA := len(alphabets) - 1
+		// a small pipeline next to a large one in the same file
+		for _, es := range [][][2]int{{{0, 1}, {1, 0}}, {{0, 0}}, {{0, 1}, {1, 2}, {2, 0}}, {{1, 0}, {2, 1}}, nil} {
+			if do(graphCase{N: 3, Edges: es, Order: []int{0, 1, 2}, Route: "yaml2"}) {
+				goto done
+			}
+		}
 		for _, n := range []int{16, 17, 31, 32, 33, 63, 64, 65, 66, 100, 128, 129, 130, 257, 300} {
 			ident, rev, inter := make([]int, n), make([]int, n), make([]int, n)
 			for i := 0; i < n; i++ {
